@@ -434,7 +434,10 @@ def job_postparse(loader, ncols, rows):
         cols = inp['cols']
         labels = ['L%d' % r for r in range(rows)]
 
+        seen = {}
+
         def stub(filename, converters, delimiter=r"\s+", comment="#"):
+            seen['delimiter'], seen['comment'] = delimiter, comment
             out = []
             for i, cv in enumerate(converters):
                 if getattr(cv, '__name__', '') == 'str' or cv is str or cv is ST.sym_str:
@@ -445,6 +448,11 @@ def job_postparse(loader, ncols, rows):
         from .evals import stubbed
         with stubbed([(IO, 'load_delimited', stub)]):
             st, res = A.call(getattr(IO, loader), 'dummy')
+            # the format options a caller passes reach the reader unchanged
+            for dl, cm in ((',', '%'), ('\t', None)):
+                st2, _ = A.call(getattr(IO, loader), 'dummy', delimiter=dl, comment=cm)
+                A.require(st2 == st and seen.get('delimiter') == dl and seen.get('comment') == cm, 'io.%s:delimiter-and-comment-reach-the-reader' % loader,
+                          got=dict(seen))
         A.observe('status', st if st == 'ok' else type(res).__name__)
         A.require(st == 'ok', 'io.%s:returns-despite-convention-violations' % loader, got=repr(res)[:100] if st != 'ok' else None)
         if st != 'ok':
